@@ -3261,7 +3261,7 @@ inline url url_from_file_path(StrT&& str, file_path_format format = file_path_fo
 ///   upa::file_path_format::windows, upa::file_path_format::native
 /// @return OS path
 inline std::string path_from_file_url(const url& file_url, file_path_format format = file_path_format::native) {
-    if (!file_url.is_file_scheme())
+    if (!file_url.is_valid() || !file_url.is_file_scheme())
         throw url_error(validation_errc::not_file_url, "Not a file URL");
 
     // source
